@@ -49,6 +49,9 @@ def shapes(tier, seed):
         out.append(('date', 'header', n))
         out.append(('date', 'query', n))
         out.append(('date', 'date-header', n))
+    # an authority-form request target (CONNECT host:port): a legal http::Uri without path-and-query
+    out.append(('authority-form', 'header'))
+    out.append(('authority-form', 'none'))
     # well-formed timestamps with long fractions (digit runs that overflow u32 / u64 / u128 when taken as one number)
     for n in ((10, 20, 40) if q else (10, 19, 20, 21, 39, 40, 64)):
         out.append(('date-frac', 'header', n))
@@ -143,6 +146,12 @@ def run_shape(prog, shape, tier, seed, res):
                     '&X-Amz-Date=' + TS + '&X-Amz-SignedHeaders=host&X-Amz-Signature=' + '0' * 64)
                 rq = Req('GET', b'/', q, [('host', conc_bytes('h'))])
             return rq, pipeline(m, rq)
+        if kind == 'authority-form':
+            hdrs = [('host', conc_bytes('example.com:443')), ('x-amz-date', conc_bytes(TS))]
+            if shape[1] == 'header':
+                hdrs.append(('authorization', conc_bytes(GOOD_AUTHZ)))
+            rq = Req('CONNECT', b'', None, hdrs, sym_bytes(ctx, 'ab', 1), authority_form='example.com:443')
+            return rq, pipeline(m, rq, options(bool(ctx.pick(2, 's3')), bool(ctx.pick(2, 'fold'))))
         if kind == 'date-frac':
             d = []
             for i in range(shape[2]):
